@@ -145,6 +145,98 @@ var perturbations = []perturbation{
 	}},
 }
 
+// tokenEnds lists the end offsets of all non-comment tokens (implicit semicolons excluded).
+func tokenEnds(src []byte) (ends []int, eol []int) {
+	fset := token.NewFileSet()
+	file := fset.AddFile("", fset.Base(), len(src))
+	var s scanner.Scanner
+	s.Init(file, src, nil, scanner.ScanComments)
+	for {
+		pos, tok, lit := s.Scan()
+		if tok == token.EOF {
+			break
+		}
+		if tok == token.COMMENT || (tok == token.SEMICOLON && lit == "\n") {
+			continue
+		}
+		n := len(lit)
+		if n == 0 {
+			n = len(tok.String())
+		}
+		end := fset.Position(pos).Offset + n
+		ends = append(ends, end)
+		// is the rest of the line blank?
+		j := end
+		for j < len(src) && (src[j] == ' ' || src[j] == '\t' || src[j] == '\r') {
+			j++
+		}
+		if j < len(src) && src[j] == '\n' {
+			eol = append(eol, end)
+		}
+	}
+	return
+}
+
+func insertText(src []byte, at map[int]string) []byte {
+	var out []byte
+	for i := 0; i <= len(src); i++ {
+		if s, ok := at[i]; ok {
+			out = append(out, s...)
+		}
+		if i < len(src) {
+			out = append(out, src[i])
+		}
+	}
+	return out
+}
+
+func init() {
+	perturbations = append(perturbations,
+		perturbation{"dense-block-comments", func(src []byte, r *rand.Rand) []byte {
+			ends, _ := tokenEnds(src)
+			at := map[int]string{}
+			for k, e := range ends {
+				switch r.Intn(6) {
+				case 0:
+					at[e] = fmt.Sprintf(" /*d%d*/", k)
+				case 1:
+					at[e] = fmt.Sprintf(" /*d%d*/ /*e%d*/", k, k)
+				}
+			}
+			return insertText(src, at)
+		}},
+		perturbation{"line-directives", func(src []byte, r *rand.Rand) []byte {
+			// //line directives as generated code has them, in front of lines that start a token
+			k := 0
+			all := strings.Split(string(src), "\n")
+			isCom := func(i int) bool {
+				return i >= 0 && i < len(all) && (strings.HasPrefix(strings.TrimSpace(all[i]), "//") || strings.HasPrefix(strings.TrimSpace(all[i]), "/*") || strings.HasSuffix(strings.TrimSpace(all[i]), "*/"))
+			}
+			return mapLines(src, func(ln int, l string, ts bool) []string {
+				// in front of code lines only: a directive inside a doc comment is reformatted by go/printer itself
+				if ts && ln > 3 && !isCom(ln-1) && !isCom(ln-2) && r.Intn(10) == 0 {
+					k++
+					n := []int{1, ln, ln + 1, 100 + k, 100000}[r.Intn(5)]
+					return []string{fmt.Sprintf("//line gen%d.go:%d", k, n), l}
+				}
+				return []string{l}
+			})
+		}},
+		perturbation{"dense-eol-comments", func(src []byte, r *rand.Rand) []byte {
+			_, eol := tokenEnds(src)
+			at := map[int]string{}
+			for k, e := range eol {
+				switch r.Intn(4) {
+				case 0:
+					at[e] = fmt.Sprintf(" // l%d", k)
+				case 1:
+					at[e] = fmt.Sprintf(" /*b%d*/ // l%d", k, k)
+				}
+			}
+			return insertText(src, at)
+		}})
+}
+
 type tokItem struct{ Kind, Text string }
 
 func tokenStream(src []byte) ([]tokItem, []string, error) {
@@ -389,6 +481,9 @@ func checkC03(c *Ctx) {
 			p := perturbations[order[k]]
 			if k == 0 {
 				p = perturbations[4] // always include CRLF
+			}
+			if k == 1 {
+				p = perturbations[len(perturbations)-1-r.Intn(3)] // and one of the dense-comment / line-directive perturbations
 			}
 			src := p.Fn(f.Src, r)
 			key := f.Path + "|" + p.Name
